@@ -90,7 +90,7 @@ def collect_programs(ctx):
         progs.append(Prog("cf-%s/%d" % (mode, i), src, "cf-" + mode, meta=meta))
     # the shared typed generator (well-typed compute programs: expressions of every core type, helper
     # functions, pointers, structs, matrices, workgroup variables, atomics on request)
-    nt = scale(80, 1500)
+    nt = scale(300, 3000)
     for i in range(nt):
         opts = {"atomics": i % 3 == 0}
         for attempt in range(4):
